@@ -29,7 +29,8 @@ inline int std_version() { return __cplusplus >= 201703L ? 17 : 14; }
 template <class K, class Tr>
 struct Engine
 {
-    using A = Alloc<unsigned char, Tr>;
+    using AO = AllocOps<Tr>;
+    using A = typename AO::type;
     using Image = typename K::template image_t<A>;
     using View = typename Image::view_t;
     using value_t = typename K::value_t;
@@ -60,6 +61,7 @@ struct Engine
         world() = &W; lifetime() = &L;
         W.report = &out.rep; L.report = &out.rep;
         L.tracking = K::is_tracked;
+        AO::begin_run();
     }
     ~Engine()
     {
@@ -157,7 +159,7 @@ struct Engine
         if (storage_of(im, ex))
         {
             Block const* b0 = W.find_live((void const*)ex[0].lo);
-            int arena = im.allocator().arena_id();
+            int arena = AO::arena_of(im.allocator());
             if (!b0)
             {
                 bool freed = W.find_any((void const*)ex[0].lo) != nullptr;
@@ -196,6 +198,17 @@ struct Engine
             if (mod[s].alive) { ++live; area += (long)(mod[s].w * mod[s].h); check_image("slot", s, *img[s], mod[s], owned); }
         for (int s = 0; s < NP; ++s)
             if (pmod[s].alive) { ++live; check_image("pslot", s, *pimg[s], pmod[s], owned); }
+        // per arena: every live block belongs to an image whose *current* allocator is that arena (this also sees an
+        // empty image that holds an alignment-slack block of a foreign arena, which has no pixel address to look up)
+        {
+            int users[8] = {};
+            for (int s = 0; s < NS; ++s) if (mod[s].alive) ++users[AO::arena_of(img[s]->allocator()) & 7];
+            for (int s = 0; s < NP; ++s) if (pmod[s].alive) ++users[AO::arena_of(pimg[s]->allocator()) & 7];
+            for (int a = 0; a < 3; ++a)
+                if (W.live_blocks(a) > users[a])
+                    viol("ledger:wrong-allocator", "arena " + std::to_string(a) + " holds " + std::to_string(W.live_blocks(a)) +
+                         " live blocks but only " + std::to_string(users[a]) + " live images use it as their allocator");
+        }
         int lb = W.live_blocks();
         if (lb > live)
             viol("ledger:leak", std::to_string(lb) + " live blocks but only " + std::to_string(live) + " live images");
@@ -220,7 +233,7 @@ struct Engine
     }
 
     // ------------------------------------------------------------------ the interpreter
-    A make_alloc(Json const& op) const { return A((int)(op.num("arena") % 3)); }
+    A make_alloc(Json const& op) const { return AO::make((int)(op.num("arena") % 3)); }
 
     void exec(Json const& op, int idx)
     {
@@ -723,7 +736,7 @@ struct Engine
                 if (!mod[s].alive) { out.abstract += "-;"; continue; }
                 long ar = (long)(mod[s].w * mod[s].h);
                 out.abstract += (ar == 0 ? "e" : ar < 10 ? "s" : ar < 100 ? "m" : "l");
-                out.abstract += std::to_string(img[s]->allocator().arena_id()) + ";";
+                out.abstract += std::to_string(AO::arena_of(img[s]->allocator())) + ";";
             }
             site = "teardown";
             W.cur_site = site.c_str(); L.cur_site = site.c_str(); W.cur_op = idx;
